@@ -1,4 +1,4 @@
-import Rain.Lemmas.PersistSwitch
+import Rain.Lemmas.PersistTight
 import Rain.Props.Lsm
 import Rain.Props.Durable
 /-
@@ -14,7 +14,7 @@ accepted by the monitor, for every run — the semantic conditions FOLLOW from t
 and the image always recovers to exactly what the running instance reads.
 
 Quantifiers: every action list (any writes, rotations, flushes to any admissible level, table
-compactions with any admissible inputs and output cuts, trivial moves, manifest switches), every crash point between
+compactions with any admissible inputs and output cuts, trivial moves, manifest switches, reopens), every crash point between
 two filesystem operations of the resulting stream.
 -/
 namespace Rain.Props.Persist
@@ -90,6 +90,28 @@ theorem C02_step_accepted (p p' : PState) (a : PAction) (h : Rel p) (hs : pstep 
       have := switch_ok h m' hf
       exact ⟨this.run, this.rel⟩
     · cases hs
+  | reopen t1 t2 w' m' =>
+    simp only [lsmStep] at hs
+    split at hs
+    · rename_i hx
+      cases hst : run p.s (reopenActions p.s t1 t2) with
+      | none => rw [hst] at hs; cases hs
+      | some s3 =>
+        rw [hst] at hs
+        simp only [Option.some.injEq] at hs
+        subst hs
+        rw [Bool.and_eq_true] at hx
+        have hw : ∀ x ∈ p.d.wals, x.1 < w' := by
+          intro x hx'
+          have := List.all_eq_true.mp hx.1 x hx'
+          simpa using this
+        have hm : ∀ x ∈ p.d.manifests, x.1 < m' := by
+          intro x hx'
+          have := List.all_eq_true.mp hx.2 x hx'
+          simpa using this
+        have := reopen_ok h t1 t2 w' m' hw hm s3 hst
+        exact ⟨this.run, this.rel⟩
+    · cases hs
 
 /-- **every run: the whole operation stream is accepted by the monitor** -/
 theorem C02_run_accepted (as : List PAction) (p p' : PState) (h : Rel p) (hr : prun p as = some p') :
@@ -131,12 +153,58 @@ theorem pstep_step {p p1 : PState} {a : PAction} (h : pstep p a = some p1) :
       | (obtain ⟨_, h⟩ := h; subst h; rfl)
       | (subst h; rfl)
 
-/-- the LSM actions of a persisted run (a manifest switch is none) -/
-def lsmActions (as : List PAction) : List Action := as.filterMap PAction.toAction?
+/-- the LSM actions of one persisted action in a given state (a manifest switch has none; a
+reopen is the run that puts both memtables into level-0 tables) -/
+def lsmActionsOf (s : State) : PAction → List Action
+  | .reopen t1 t2 _ _ => reopenActions s t1 t2
+  | a => match a.toAction? with
+    | some x => [x]
+    | none => []
+
+/-- the LSM actions of a persisted run -/
+def lsmTrace (p : PState) : List PAction → List Action
+  | [] => []
+  | a :: rest => match pstep p a with
+    | some p' => lsmActionsOf p.s a ++ lsmTrace p' rest
+    | none => []
+
+theorem run_append {s s1 : State} {a b : List Action} (h : run s a = some s1) :
+    run s (a ++ b) = run s1 b := by
+  induction a generalizing s with
+  | nil => simp only [run, Option.some.injEq] at h; subst h; rfl
+  | cons x rest ih =>
+    simp only [List.cons_append, run] at h ⊢
+    cases hx : step s x with
+    | none => rw [hx] at h; cases h
+    | some s' => rw [hx] at h; exact ih h
+
+theorem lsmStep_run {s s1 : State} {a : PAction} (h : lsmStep s a = some s1) :
+    run s (lsmActionsOf s a) = some s1 := by
+  cases a with
+  | reopen t1 t2 w m => exact h
+  | write ops =>
+    simp only [lsmStep, PAction.toAction?] at h
+    simp only [lsmActionsOf, PAction.toAction?, run, h]
+  | rotate w =>
+    simp only [lsmStep, PAction.toAction?] at h
+    simp only [lsmActionsOf, PAction.toAction?, run, h]
+  | flush n l =>
+    simp only [lsmStep, PAction.toAction?] at h
+    simp only [lsmActionsOf, PAction.toAction?, run, h]
+  | compact c =>
+    simp only [lsmStep, PAction.toAction?] at h
+    simp only [lsmActionsOf, PAction.toAction?, run, h]
+  | trivialMove n l =>
+    simp only [lsmStep, PAction.toAction?] at h
+    simp only [lsmActionsOf, PAction.toAction?, run, h]
+  | switchManifest m =>
+    simp only [lsmStep, PAction.toAction?, Option.some.injEq] at h
+    subst h
+    simp [lsmActionsOf, PAction.toAction?, run]
 
 /-- the LSM part of a persisted run is a run of the LSM model -/
 theorem prun_run (as : List PAction) (p p' : PState) (hr : prun p as = some p') :
-    run p.s (lsmActions as) = some p'.s := by
+    run p.s (lsmTrace p as) = some p'.s := by
   induction as generalizing p with
   | nil => simp only [prun, Option.some.injEq] at hr; subst hr; rfl
   | cons a rest ih =>
@@ -145,20 +213,9 @@ theorem prun_run (as : List PAction) (p p' : PState) (hr : prun p as = some p') 
     | none => rw [hst] at hr; cases hr
     | some p1 =>
       rw [hst] at hr
-      have hs1 := pstep_step hst
-      unfold lsmStep at hs1
-      unfold lsmActions
-      cases hta : a.toAction? with
-      | none =>
-        rw [hta] at hs1
-        simp only [Option.some.injEq] at hs1
-        simp only [List.filterMap_cons, hta]
-        rw [hs1]
-        exact ih p1 hr
-      | some x =>
-        rw [hta] at hs1
-        simp only [List.filterMap_cons, hta, run, hs1]
-        exact ih p1 hr
+      simp only [lsmTrace, hst]
+      rw [run_append (lsmStep_run (pstep_step hst))]
+      exact ih p1 hr
 
 /-- a freshly created database is in correspondence with the empty LSM state -/
 theorem fresh_rel (m w : Nat) : Rel (pinit m w) := by
@@ -183,13 +240,13 @@ theorem fresh_rel (m w : Nat) : Rel (pinit m w) := by
   · intro x hx
     simp [pinit] at hx; subst hx; exact Or.inl rfl
   · intro x hx
-    simp [pinit] at hx; subst hx; exact Nat.le_refl _
+    simp [pinit] at hx; subst hx; exact Or.inl (Nat.le_refl _)
 
 /-- **C01 + C02 composed: after ANY run of the persisted system the image on disk recovers to the
 most recent write of every key** -/
 theorem C02_persisted_image_holds_latest_writes (m w : Nat) (as : List PAction) (p : PState)
     (hr : prun (pinit m w) as = some p) :
-    ∃ r, recover p.d = some r ∧ ∀ k, latest r.entries k = specOf (lsmActions as) k := by
+    ∃ r, recover p.d = some r ∧ ∀ k, latest r.entries k = specOf (lsmTrace (pinit m w) as) k := by
   obtain ⟨_, hR⟩ := C02_run_accepted as (pinit m w) p (fresh_rel m w) hr
   obtain ⟨r, hrec, hl⟩ := rel_reads hR
   refine ⟨r, hrec, fun k => ?_⟩
@@ -212,16 +269,138 @@ theorem C02_persisted_every_crash_point_recovers (m w : Nat) (as : List PAction)
   have := C02_every_prefix_recovers (pinit m w).d [] h0 _ p.d hrun i hi
   simpa using this
 
+/-! ### C11 over the composed model -/
+
+/-- **one step keeps the directory exact**: exactly the tables of the version, the WALs of the two
+memtables and the current manifest are on disk after the operations of the step -/
+theorem C11_step_keeps_directory_exact (p p' : PState) (a : PAction) (h : Rel p) (t : Tight p)
+    (hs : pstep p a = some p') : Tight p' := by
+  unfold pstep at hs
+  cases a with
+  | write ops =>
+    simp only [lsmStep, PAction.toAction?, step, if_true, Option.some.injEq] at hs
+    subst hs; exact tight_write t ops
+  | rotate w =>
+    simp only [lsmStep, PAction.toAction?, step] at hs
+    split at hs
+    · cases hst : stepRotate p.s with
+      | none => rw [hst] at hs; cases hs
+      | some s' =>
+        rw [hst] at hs
+        simp only [Option.some.injEq] at hs
+        subst hs; exact tight_rotate t h w s' hst
+    · cases hs
+  | flush num lvl =>
+    simp only [lsmStep, PAction.toAction?, step, if_true] at hs
+    cases hst : stepFlush p.s num lvl with
+    | none => rw [hst] at hs; cases hs
+    | some s' =>
+      rw [hst] at hs
+      simp only [Option.some.injEq] at hs
+      subst hs; exact tight_flush t h num lvl s' hst
+  | compact c =>
+    simp only [lsmStep, PAction.toAction?, step, if_true] at hs
+    cases hst : stepCompact p.s c with
+    | none => rw [hst] at hs; cases hs
+    | some s' =>
+      rw [hst] at hs
+      simp only [Option.some.injEq] at hs
+      subst hs; exact tight_compact t h c s' hst
+  | trivialMove num lvl =>
+    simp only [lsmStep, PAction.toAction?, step, if_true] at hs
+    cases hst : stepTrivialMove p.s num lvl with
+    | none => rw [hst] at hs; cases hs
+    | some s' =>
+      rw [hst] at hs
+      simp only [Option.some.injEq] at hs
+      subst hs; exact tight_move t h num lvl s' hst
+  | switchManifest m' =>
+    simp only [lsmStep, PAction.toAction?] at hs
+    split at hs
+    · rename_i hx
+      simp only [Option.some.injEq] at hs
+      subst hs
+      obtain ⟨es, hes, _, _⟩ := h.edits
+      have hlt := List.all_eq_true.mp hx _ (Rain.Durable.Lemmas.mem_of_lookup _ _ _ hes)
+      have hne : p.c.manifest ≠ m' := by
+        have : p.c.manifest < m' := by simpa using hlt
+        omega
+      exact tight_switch t h m' hne
+    · cases hs
+  | reopen t1 t2 w' m' =>
+    simp only [lsmStep] at hs
+    split at hs
+    · rename_i hx
+      cases hst : run p.s (reopenActions p.s t1 t2) with
+      | none => rw [hst] at hs; cases hs
+      | some s3 =>
+        rw [hst] at hs
+        simp only [Option.some.injEq] at hs
+        subst hs
+        rw [Bool.and_eq_true] at hx
+        have hw : ∀ x ∈ p.d.wals, x.1 < w' := by
+          intro x hx'
+          have := List.all_eq_true.mp hx.1 x hx'
+          simpa using this
+        obtain ⟨es, hes, _, _⟩ := h.edits
+        have hlt := List.all_eq_true.mp hx.2 _ (Rain.Durable.Lemmas.mem_of_lookup _ _ _ hes)
+        have hne : p.c.manifest ≠ m' := by
+          have : p.c.manifest < m' := by simpa using hlt
+          omega
+        exact tight_reopen t h t1 t2 w' m' hw hne s3 hst
+    · cases hs
+
+theorem fresh_tight (m w : Nat) : Tight (pinit m w) := by
+  have hlv : ∀ j, lv init.levels j = [] := by
+    intro j
+    simp only [lv, init, List.getD_eq_getElem?_getD, List.getElem?_replicate]
+    split <;> rfl
+  refine ⟨?_, ?_, ?_⟩
+  · intro t
+    simp only [pinit, keys, List.map_nil, List.not_mem_nil, false_iff]
+    rintro ⟨l, f, hf, _⟩
+    rw [hlv l] at hf; cases hf
+  · intro n; simp [pinit, keys]
+  · intro k; simp [pinit, keys]
+
+/-- **C11 for the persisted LSM: after every action of every run — writes, rotations, flushes,
+compactions, trivial moves, manifest switches, reopens — the directory holds exactly CURRENT's
+manifest, the WALs of the memtable and of the immutable memtable, and the table files of the
+current version: nothing needed is missing (`Rel`), nothing dead is kept (`Tight`).**  (In the
+model the removals are part of the step; the real code defers them to the next
+`remove_obsolete_files` pass, see the known finding about lingering files.) -/
+theorem C11_persisted_directory_exact (m w : Nat) (as : List PAction) (p : PState)
+    (hr : prun (pinit m w) as = some p) :
+    (∀ t, t ∈ p.d.tables.map Prod.fst ↔ ∃ l f, f ∈ lv p.s.levels l ∧ f.num = t) ∧
+    (∀ n, n ∈ p.d.wals.map Prod.fst ↔ n = p.c.wal ∨ some n = p.c.immWal) ∧
+    (∀ k, k ∈ p.d.manifests.map Prod.fst ↔ k = p.c.manifest) ∧
+    p.d.current = some p.c.manifest := by
+  have key : ∀ (as : List PAction) (q : PState), Rel q → Tight q → prun q as = some p → Rel p ∧ Tight p := by
+    intro as
+    induction as with
+    | nil => intro q hq tq h; simp only [prun, Option.some.injEq] at h; subst h; exact ⟨hq, tq⟩
+    | cons a rest ih =>
+      intro q hq tq h
+      simp only [prun] at h
+      cases hst : pstep q a with
+      | none => rw [hst] at h; cases h
+      | some q1 =>
+        rw [hst] at h
+        exact ih q1 (C02_step_accepted q q1 a hq hst).2 (C11_step_keeps_directory_exact q q1 a hq tq hst) h
+  obtain ⟨hR, hT⟩ := key as (pinit m w) (fresh_rel m w) (fresh_tight m w) hr
+  exact ⟨hT.tables, hT.wals, hT.manifests, hR.cur⟩
+
 /-! ### non-vacuity: a run with writes, a rotation, a flush, a second flush and a trivial move -/
 
 private def exRun : List PAction :=
   [.write [([107], some [1]), ([108], some [2])], .rotate 3, .write [([110], none)], .flush 4 0,
-   .rotate 5, .flush 6 0, .trivialMove 4 0, .switchManifest 7]
+   .rotate 5, .flush 6 0, .trivialMove 4 0, .switchManifest 7, .write [([111], some [3])],
+   .reopen 8 9 10 11]
 
 example : (prun (pinit 1 2) exRun).isSome = true := by decide +kernel
-example : (streamOf (pinit 1 2) exRun).length = 15 := by decide +kernel
+example : (streamOf (pinit 1 2) exRun).length = 24 := by decide +kernel
 example : ((prun (pinit 1 2) exRun).map fun p =>
       (p.d.current, p.d.manifests.map Prod.fst, p.d.wals.map Prod.fst, p.d.tables.map Prod.fst)) =
-    some (some 7, [7], [5], [4, 6]) := by decide +kernel
+    some (some 11, [11], [10], [4, 6, 9]) := by decide +kernel
 
 end Rain.Props.Persist
